@@ -13,7 +13,7 @@ from . import common
 WEIGHTS = {
     "C01": {"redox": 3, "hand": 2, "ionic": 1, "mcs-based": 2, "rule-based": 1, "charge-trap": 1, "isotope": 0.5, "dummy-atom": 0.5, "double-redox": 1},
     "C02": {"hand": 3, "redox": 1, "mapped": 2, "mcs-based": 1, "stereo": 1, "marker-prefix": 2, "tautomer-form": 2, "isotope": 1, "dummy-atom": 1},
-    "C03": {"declined": 3, "carbon-surplus": 1, "mcs-based": 2, "hand": 1, "redox": 1},
+    "C03": {"declined": 3, "carbon-surplus": 1, "aromatic-surplus": 1, "mcs-based": 2, "hand": 1, "redox": 1},
     "C04": {"input-balanced": 4, "hand": 2, "ionic": 1, "mcs-based": 1, "rule-based": 1, "charge-trap": 1, "redox": 2, "isotope": 1, "dummy-atom": 1, "stereo": 1, "mapped": 1},
     "C18": {"mcs-based": 2, "rule-based": 1, "input-balanced": 1, "declined": 1, "hand": 1, "both-carbon": 1, "no-mcs": 0.5, "carbon-surplus": 0.5},
 }
